@@ -7,7 +7,9 @@ LEVEL_TEXT = ("Per-width deductive proof of gamma containment: the real StridedI
               "bounds and stride, the real transfer function is executed on every feasible path, and z3 proves that the reference result of every "
               "pair of members is a member of the abstract result - complete in values for each enumerated width.  The transfer functions and input "
               "classes listed as known findings (unsound in the unchanged tree; too large to repair safely) are excluded by their stated input class, "
-              "the complement is proved, so any other unsound input is still reported.")
+              "the complement is proved, so any other unsound input is still reported.  For eq() the input classes on which intersection() calls its "
+              "Diophantine helper outside the helper's documented assumption (vf/contracts/si_unproved_classes.json) are NOT proved and not claimed "
+              "to fail; they are listed in the evidence assumptions.")
 TECHNIQUE = "contract-based deductive verification (pyvc symbolic execution of the real class, gamma-containment VCs by z3) + bounded check of one assumed helper contract"
 M = "vf.contracts.si"
 BIN = ["add", "sub", "mul", "udiv", "sdiv", "__mod__", "bitwise_or", "bitwise_and", "bitwise_xor",
